@@ -343,12 +343,16 @@ func doWorker(name, tier, budgetStr string, d time.Duration, maxViol, shard, nsh
 // reachable in two subtrees is expanded in both (the subtrees differ in the environment's first choices,
 // hence in its history, so little is lost).
 const frontierDepth = 5
+const frontierDepthFine = 8
 
 func exploreShard(cfg *Config, opts vs.Options, shard, nshards int) *vs.Stats {
 	start := time.Now()
 	fo := opts
 	fo.Prune = false
 	fo.FrontierDepth = frontierDepth
+	if nshards > 8 {
+		fo.FrontierDepth = frontierDepthFine // more, and more even, subtrees when there are many shards
+	}
 	fo.Samples = -1
 	if shard == 0 {
 		fo.Samples = 1
